@@ -256,6 +256,17 @@ func (v *Verifier) evalSpec(env *Env, e SExpr) Val {
 				pv := v.evalSpec(ne, pe)
 				ts, _ := flattenVal(pv)
 				ps = append(ps, ts...)
+				// mark(x): a pure trigger. The term is made part of the formula through a tautology, so that
+				// a goal quantified the same way offers mark(skolem) as an instantiation point.
+				if call, ok := pe.(*SCall); ok {
+					if id, ok := call.Fn.(*SIdent); ok && id.Name == "mark" {
+						if x.Forall {
+							body = implies(pv.A, body)
+						} else {
+							body = and(pv.A, body)
+						}
+					}
+				}
 			}
 			pat = " :pattern (" + strings.Join(ps, " ") + ")"
 		}
@@ -860,6 +871,15 @@ func (v *Verifier) evalCall(env *Env, x *SCall) Val {
 		a := v.evalSpec(env, x.Args[0])
 		t := types.Universe.Lookup(id.Name).Type()
 		return Val{K: KInt, T: t, A: a.A}
+	case "mark":
+		a := v.evalSpec(env, x.Args[0])
+		f := v.ctx.declareFun("Mark!", []string{"Int"}, "Bool")
+		if !v.facts["markax"] {
+			v.facts["markax"] = true
+			// Mark! is constantly true; it only exists to give quantifiers an instantiation point
+			v.ctx.assert("(forall ((x! Int)) (! (Mark! x!) :pattern ((Mark! x!))))", "trigger marker is always true")
+		}
+		return Val{K: KBool, A: app(f, a.A)}
 	case "has":
 		m := v.evalSpec(env, x.Args[0])
 		k := v.evalSpec(env, x.Args[1])
